@@ -611,6 +611,9 @@ func runC08(c *Ctx) {
 		ob := c.Obl("R8", fname(f), "lock balance on every path", 1)
 		la.lockBalance(ob, f)
 	}
+	// the read deadline Read waits on is a deadline.Deadline: its signalling discipline (C09 rules) is part of
+	// "waits until the read deadline passes / keeps failing until the deadline is changed"
+	deadlineRules(c, "D")
 }
 
 // lastCaseBlock: for a blocking select the last case is the else-branch of the test of
